@@ -156,3 +156,57 @@ func Gen(t *rapid.T, o Opts) Prog {
 	}
 	return p
 }
+
+// GenChain draws a program whose stores form a chain of `depth` stages (each store reads the previous one)
+// below an output mapper: the shape with the most scheduling dependencies per segment.
+func GenChain(t *rapid.T, depth int, inits []uint64) Prog {
+	g := gdsl.Graph{}
+	kindsAll := sdsl.AllKinds()
+	prev := ""
+	for i := 0; i < depth; i++ {
+		k := kindsAll[rapid.IntRange(0, len(kindsAll)-1).Draw(t, "chainkind")]
+		m := gdsl.Mod{Name: fmt.Sprintf("store_%d", i), Kind: "store", Policy: k.Policy, VType: k.VType, Initial: rapid.SampledFrom(inits).Draw(t, "chaininit")}
+		m.Inputs = []gdsl.In{{T: "source", Ref: rapid.SampledFrom([]string{gdsl.BlockType, gdsl.ClockType}).Draw(t, "chainsrc")}}
+		if prev != "" {
+			m.Inputs = append(m.Inputs, gdsl.In{T: "store", Ref: prev, Mode: rapid.SampledFrom([]string{"get", "get", "deltas"}).Draw(t, "chainmode")})
+		}
+		if rapid.IntRange(0, 3).Draw(t, "sibling") == 0 {
+			// a second store in the same stage
+			sb := gdsl.Mod{Name: fmt.Sprintf("side_%d", i), Kind: "store", Policy: "set", VType: "string", Initial: rapid.SampledFrom(inits).Draw(t, "sideinit"),
+				Inputs: []gdsl.In{{T: "source", Ref: gdsl.BlockType}}}
+			if prev != "" {
+				sb.Inputs = append(sb.Inputs, gdsl.In{T: "store", Ref: prev, Mode: "get"})
+			}
+			g.Mods = append(g.Mods, sb)
+		}
+		g.Mods = append(g.Mods, m)
+		prev = m.Name
+	}
+	out := gdsl.Mod{Name: "out", Kind: "map", Initial: rapid.SampledFrom(inits).Draw(t, "outinit"),
+		Inputs: []gdsl.In{{T: "source", Ref: gdsl.ClockType}, {T: "store", Ref: prev, Mode: rapid.SampledFrom([]string{"get", "deltas"}).Draw(t, "outmode")}}}
+	g.Mods = append(g.Mods, out)
+	for i := range g.Mods {
+		g.Mods[i].Entry = g.Mods[i].Name
+	}
+	p := Prog{Graph: g, Beh: map[string]dslrt.Behaviour{}, Seed: rapid.Uint64Range(1, 1<<30).Draw(t, "seed")}
+	for i, m := range g.Mods {
+		b := dslrt.Behaviour{Kind: m.Kind, Seed: p.Seed*1000 + uint64(i)}
+		nget := 0
+		for _, in := range m.Inputs {
+			if in.T == "store" && in.Mode != "deltas" {
+				b.Reads = append(b.Reads, dslrt.Read{Store: nget, Fn: rapid.SampledFrom(readFns).Draw(t, "readfn"), Key: rapid.SampledFrom(dslrt.StoreKeys).Draw(t, "readkey"), Ord: rapid.Uint64Range(0, 6).Draw(t, "readord")})
+				nget++
+			}
+			if in.T == "store" && in.Mode == "deltas" {
+				b.DeltaInputs = append(b.DeltaInputs, in.Ref)
+			}
+		}
+		if m.Kind == "store" {
+			b.StoreKind = sdsl.Kind{Policy: m.Policy, VType: m.VType}
+			b.MaxOps = 3
+			b.DelPct = 10
+		}
+		p.Beh[m.Name] = b
+	}
+	return p
+}
